@@ -675,6 +675,13 @@ class Machine(object):
                 else:
                     vals.append(self.ev(frame, a))
                     refs.append(None)
+            if name == "inkey":
+                # OS-9 system module: RUN inkey(char$) or RUN inkey(path, char$)
+                ok = len(refs) in (1, 2) and isinstance(refs[-1], Cell) and refs[-1].t[0] == "STRING" and \
+                    (len(refs) == 1 or not isinstance(vals[0], str))
+                if not ok:
+                    self.mismatches.append(("arity", name, len(refs), "1 or 2"))
+                    raise B09RuntimeError(56, "parameter error calling inkey with %d arguments" % len(refs))
             kind = RESULT_STUBS.get(name)
             if kind and refs and isinstance(refs[-1], Cell):
                 t = self.tape
@@ -919,8 +926,7 @@ def load_library(path, storage=32):
     key = (path, st.st_mtime_ns, st.st_size, storage)
     if key not in _LIB_CACHE:
         text = open(path).read()
-        if storage != 32:
-            text = re.sub(r"(?i)(:\s*string)<<>>", lambda m: "%s[%d]" % (m.group(1), storage), text)
+        text = re.sub(r"(?i)(:\s*string)<<>>", lambda m: m.group(1) + ("[%d]" % storage if storage != 32 else ""), text)
         procs = parse_program(text)
         for k in [k for k in _LIB_CACHE if k[:3] != key[:3]]:
             del _LIB_CACHE[k]
